@@ -16,6 +16,7 @@ from xdsl.pattern_rewriter import (
     op_type_rewrite_pattern,
 )
 from xdsl.rewriter import InsertPoint
+from xdsl.traits import is_side_effect_free
 from xdsl.utils.hints import isa
 
 
@@ -105,6 +106,14 @@ class MergeForLoops(RewritePattern):
         # lb must be 0 and step must be 1:
         if lb != 0 or lb_parent != 0 or step != 1 or step_parent != 1:
             return
+
+        # the nest must be perfect: everything else in the parent body would run once per
+        # merged iteration, so it may only consist of side effect free ops (and the yield)
+        for other in parent.body.block.ops:
+            if other is op or isinstance(other, YieldOp):
+                continue
+            if not is_side_effect_free(other):
+                return
 
         # the new ub of the parent op is ub * ub_parent
         new_parent_ub = ConstantOp.from_int_and_width(ub * ub_parent, IndexType())
